@@ -968,6 +968,19 @@ func blsDKG() {
 			run{"jf", 8, 3, 0, nil},
 		)
 	}
+	// group-size sweep: the public key shares are images of the verification vector at 1..n, computed by
+	// routines whose small-exponent / windowing choices depend on n (and differ between configurations)
+	maxSweep := 40
+	if thorough {
+		maxSweep = 72
+	}
+	for n := 5; n <= maxSweep; n++ {
+		runs = append(runs, run{"fvss", n, 1 + n%2, n % 3, nil})
+	}
+	runs = append(runs, run{"fvss", 16, 7, 0, nil}, run{"fvss", 17, 8, 0, nil}, run{"fvssq", 16, 5, 15, []int{3}}, run{"fvss", 33, 16, 0, nil})
+	if thorough {
+		runs = append(runs, run{"fvss", 128, 2, 0, nil}, run{"fvss", 129, 2, 1, nil}, run{"fvss", 254, 1, 0, nil}, run{"fvss", 65, 32, 0, nil}, run{"jf", 16, 5, 0, nil}, run{"jf", 17, 8, 0, nil})
+	}
 	for ri, r := range runs {
 		net := &dkgNet{st: st, id: fmt.Sprintf("run#%d %s(n=%d,t=%d,dealer=%d,drop=%v)", ri, r.kind, r.n, r.t, r.dealer, r.dropShares)}
 		if len(r.dropShares) > 0 {
